@@ -19,7 +19,7 @@ FR_Spec == FR_Init /\\ [][FR_Next]_fr_i
 ====
 """
 CFG = "SPECIFICATION FR_Spec\nCONSTRAINT FR_Report\nCHECK_DEADLOCK FALSE\n"
-_R = re.compile(r'<<"REC", (\d+), "([^"]*)">>')
+_R = re.compile(r'<<\s*"REC",\s*(\d+),\s*"([^"]*)"\s*>>')
 
 
 def _chunk(args):
